@@ -8,7 +8,7 @@ TRUST = ("Trusted: go/packages+go/types+go/ssa (x/tools v0.29.0), govc's VC gene
          "extern contracts of the standard library (encoding/binary, bytes, fmt, sync/atomic; listed per run in evidence.trusted_base); "
          "slices satisfy off+cap <= 2^56; sizes bounded as stated in the contracts' requires clauses; "
          "separation preconditions (destination buffer disjoint from the message's own buffers) are obligations of static callers; at dynamic calls through the message.Message interface the implementation's preconditions are assumed (the interface postconditions and frame are proved per implementation by refinement wrappers; Len() <= 268435460 is an explicit assumption); "
-         "the topics.Provider / sessions.Provider / sync.Locker / io / net interface contracts are trusted.")
+         "topics.Provider.Retained is proved for the in-memory provider under its object invariant; the other topics.Provider methods and the sessions.Provider / sync.Locker / io / net interface contracts are trusted.")
 
 claimed = {
  'C03': dict(level='proof',
@@ -101,7 +101,7 @@ claimed = {
          "For every first packet: a CONNECT refused while decoding with a CONNACK code gets exactly one CONNACK with exactly that code and SessionPresent=0, any other unreadable first packet gets none; rejected credentials get exactly one CONNACK with code 4; an accepted CONNECT gets exactly one CONNACK with code 0 after the session was obtained and before the service is started; "
          "on every refusal no service is created or started and the session store is untouched (the authenticator is consulted before any session access); every error return closes the connection (deferred function, verified). "
          "ConnectMessage.Decode maps an unsupported protocol level to code 1 and an unacceptable client identifier to code 2 and produces no other code (C03/C04 contracts, part of this check). "
-         "auth.Manager.Authenticate asks the configured provider exactly once, with these credentials, and returns its answer (verified; package auth under contract). Assumed: writing the CONNACK bytes (the package-level writeMessage) and the identifier syntax check (a regular expression) are trusted contracts pinned to their current bodies; service.start is verified but assumed not to fail here."),
+         "auth.Manager.Authenticate asks the configured provider exactly once, with these credentials, and returns its answer (verified; package auth under contract). The CONNACK writer (package-level writeMessage / writeMessageBuffer) is verified (that a socket or encode error is never a CONNACK code is an explicitly assumed postcondition). Assumed: the identifier syntax check (a regular expression) is a trusted contract pinned to its current body; service.start is verified but assumed not to fail here."),
    design='DESIGN.md §4 C11', technique='ghost-log contracts over go/ssa incl. the deferred closure, z3/cvc5 (govc)'),
  'C05': dict(level='proof',
    text=("Contract-based deductive proof of the per-connection input paths (core; that a teardown of one connection does not disturb others is a whole-system statement not covered). For arbitrary bytes from the peer: getMessageBuffer (the unauthenticated read of the first packet) and getConnectMessage, "
@@ -116,7 +116,7 @@ claimed = {
          "handed out by earlier lookups keep their content whatever is retained later (a defect found here: the old object and buffer were rewritten in place - fixed); a failed insert keeps the previous message; rremove drops the node's message; both descend with exactly the remaining levels into the child for the next level (one-step contracts). "
          "(4) PublishMessage.Clone (the QoS-downgraded copy sent to a new subscription) is a fresh object over a fresh buffer with identical flags, topic and payload, and leaves the stored message untouched. "
          "(5) The broker-side subscriber callback (onpub closure) forwards with the retain flag cleared and restores the flag of the shared message afterwards. "
-         "NOT machine-checked: the lookup side of the retained trie (rmatch, allRetained iterate over Go maps) and that unrelated trie nodes are untouched by a recursive insert - covered by the BOUNDED stand-in shared with C06 (labelled bounded, never counted as proved: retained insert/replace/clear for every pair of topics against every filter of 1..3 levels); "
+         "(7) The lookup side (rmatch, allRetained, MemTopics.Retained; map iteration modelled): everything appended to the result is a stored, non-nil PUBLISH object, the entries already in the list are untouched, and every child is visited as the one-step contracts say; the interface contract the handlers assume for Retained is proved from this by a refinement wrapper under the provider's object invariant. NOT machine-checked: that exactly the matching topics are selected (the induction over levels) and that unrelated trie nodes are untouched by a recursive insert - covered by the BOUNDED stand-in shared with C06 (labelled bounded, never counted as proved: retained insert/replace/clear for every pair of topics against every filter of 1..3 levels); "
          "(6) processSubscribe (verified, see C07): a retained message whose QoS exceeds the granted QoS is replaced by a fresh clone with the granted QoS - SetQoS is only ever applied to a fresh object, never to the stored one - and all collected messages are sent after the SUBACK."),
    design='DESIGN.md §4 C08', technique='contracts (one-step contracts on the recursive trie functions, map type invariant, ghost log, frame checking) with VCs over go/ssa discharged by z3/cvc5 (govc); bounded exhaustive stand-in for the trie lookups'),
  'C20': dict(level='proof',
